@@ -339,6 +339,9 @@ func bigCuts(g bigGen, f bigFile, bodyStart int, thorough bool) []int {
 	}
 	if f.ascii {
 		limit /= 2 // text decodes cost ten times a binary one
+		if len(data) > 1<<19 {
+			limit /= 2
+		}
 	}
 	if len(out) > limit {
 		// keep the first 8 and the last 24, thin the middle evenly
@@ -359,7 +362,8 @@ func bigCuts(g bigGen, f bigFile, bodyStart int, thorough bool) []int {
 func bigPlan(seed uint64, thorough bool) []bigGen {
 	enc := []string{"le", "be"}
 	e0, e1 := enc[seed%2], enc[(seed+1)%2]
-	spzSub := []string{"v2-sh1-stored", "v1-sh0-deflate", "v2-sh0-stored", "v1-sh2-deflate"}
+	// every big SPZ file carries spherical harmonics in the quick tier (the largest block of the file)
+	spzSub := []string{"v2-sh1-stored", "v1-sh3-deflate", "v2-sh2-stored", "v1-sh1-deflate"}
 	plan := []bigGen{
 		{Format: "ply", Sub: e0 + "-cloud", N: 70001, Seed: seed},
 		{Format: "ply", Sub: e1 + "-mesh", N: 9001, Seed: seed + 1},
@@ -367,6 +371,7 @@ func bigPlan(seed uint64, thorough bool) []bigGen {
 		{Format: "stl", N: 9001, Seed: seed},
 		{Format: "splat", N: 9001, Seed: seed},
 		{Format: "pts", Sub: []string{"3", "4", "7"}[seed%3], N: 9001, Seed: seed},
+		{Format: "pts", Sub: []string{"7", "3", "4"}[seed%3], N: 70001, Seed: seed + 1},
 		{Format: "spz", Sub: spzSub[seed%4], N: 9001, Seed: seed},
 	}
 	if thorough {
